@@ -210,6 +210,18 @@ def is_state(prog, rep, tag):
             # from the comparison, the next frame or a possibly-true Ok is only reached through next()
             reach = b.reachable_from(sb, avoid={it[0].bb}) if sb != it[0].bb else set()
             d["every-response-compared"] = al[0].bb not in reach and all(x[0] not in reach for x in maybe_true)
+            # and every item the iterator yields reaches the comparison: from the Some edge of next() neither the
+            # next item, the next frame nor a possibly-true Ok can be reached around the comparison (an item
+            # that is skipped - `continue` on a failed working counter check, say - counts as "in state")
+            some_t = None
+            for cd in q.conds(b):
+                if cd.kind == "discr" and cd.place and cd.place["l"] == it[0].dest["l"] and not cd.place["p"]:
+                    some_t = cd.variant_targets(prog).get("Some")
+            if some_t is None:
+                d["every-item-compared"] = False
+            else:
+                around = b.reachable_from(some_t, avoid={cmp_bb})
+                d["every-item-compared"] = it[0].bb not in around and al[0].bb not in around and all(x[0] not in around for x in maybe_true)
         else:
             d["every-response-compared"] = False
     ok = bool(d) and all(d.values())
